@@ -15,6 +15,8 @@ structure TS where
   st : St
   wr : List (Nat × Val) := []
   calls : List Nat := []
+  /-- how many items the iterator argument has handed out -/
+  iterPos : Nat := 0
 
 abbrev Clo := Nat → TS → TS × Outcome Val
 
@@ -40,6 +42,10 @@ def call (f : Clo) (i : Nat) (t : TS) : TS × Outcome Val := f i { t with calls 
 /-- `ptr::copy_nonoverlapping(src.as_ptr(), dst, n)` from a `&[T]`: element `i` lands at `dst + i * size_of::<T>()` -/
 def copy_in (esz : Nat) (src : List Val) (dst n : Nat) (t : TS) : TS × Outcome Unit :=
   ({ t with wr := t.wr ++ (List.range n).map fun i => (dst + i * esz, src.getD i 0) }, .ok ())
+
+/-- `iter.next()` on the iterator argument (its items as a list, its position in the state) -/
+def iter_next (items : List Val) (t : TS) : TS × Outcome (Option Val) :=
+  ({ t with iterPos := t.iterPos + 1 }, .ok items[t.iterPos]?)
 
 /-- `|| v` / `|_| v` -/
 def constClo (v : Val) : Clo := fun _ t => (t, .ok v)
